@@ -34,8 +34,9 @@ def run(res, tier, replay):
                 for k in range(1, len(c.parts)): sc.op("cab_append", "c%d" % (k - 1), "c%d" % k)
                 return sc
             nmem = len(c.members)
+            fol_of = [fi for fi, f_ in enumerate(c.folders) for _ in f_.members]
             sc = base().op("cab_extract_seq", "c0", "outs", rng.randrange(1 << 30), 12 if tier == "quick" else 24)
-            scns.append(sc); meta.append(("cab-hist", i, nmem))
+            scns.append(sc); meta.append(("cab-hist", i, fol_of))
             for m in range(nmem):
                 scns.append(base().op("cab_extract", "c0", m, "ref")); meta.append(("cab-ref", i, m))
         else:
@@ -72,16 +73,24 @@ def run(res, tier, replay):
             if res.violation("crash/hang during an extraction history: %s" % (t.crash or "hang")[-200:], sc.text(), key="crash"): nbad += 1
             continue
         ex = [o for o in t.ops if o.name.endswith("_extract")]
+        failed_in = {}          # folder -> status of an earlier failed call on that folder (cabinets only)
         for j, o in enumerate(ex):
             idx = int(o.kv["idx"]) if "idx" in o.kv else m[2][j]
             want = ref.get((m[0][:3], m[1], idx)); ncalls += 1
+            fol = m[2][idx] if m[0] == "cab-hist" and idx < len(m[2]) else None
             if want is None: continue
             if (o.kv.get("st"), o.out) != want:
                 # same failure status, different number of bytes delivered before the failure: recorded finding (known_findings.json)
                 k = "failed-member-partial-output" if (o.kv.get("st") == want[0] and want[0] not in ("0", "crash")) else "history"
+                # the decoder of a folder that has failed is kept with its error: a later call on the SAME (damaged) folder whose
+                # offset is not behind the bytes flushed so far gets that error at once, although a fresh decompressor would not
+                # have to touch the damaged block for this member: second recorded manifestation of the same finding
+                if k == "history" and fol is not None and failed_in.get(fol) == o.kv.get("st") and (o.outlen or 0) == 0 and want[0] == "0":
+                    k = "failed-folder-sticky-error"
                 if res.violation("call %d of the history (member %d) gave status %s / %s bytes, a fresh decompressor gives status %s / %s bytes" % (
                         j, idx, o.kv.get("st"), o.outlen, want[0], len(want[1] or "") // 2), sc.text(), key=k):
                     nbad += 1; break
+            if fol is not None and o.kv.get("st") not in ("0", None): failed_in.setdefault(fol, o.kv.get("st"))
         res.count(m[0])
     res.oblige("search: %d extract calls in %d histories agree with a fresh decompressor" % (ncalls, sum(1 for m in meta if m[0].endswith("-hist"))), nbad == 0)
     res.traces += ncalls
